@@ -16,6 +16,7 @@ import (
 	"github.com/anishathalye/porcupine"
 	"github.com/xinchentechnote/fin-proto-go/codec"
 	sample "github.com/xinchentechnote/fin-proto-go/sample-bin/messages"
+	sse "github.com/xinchentechnote/fin-proto-go/sse-bin/messages"
 	szse "github.com/xinchentechnote/fin-proto-go/szse-bin/messages"
 
 	"verif/internal/gen"
@@ -50,10 +51,11 @@ const (
 	opGet
 	opRemove
 	opClear
-	opEncode // a frame encode whose internal look-up of the name is observed through the trailer it writes
+	opEncode      // a frame encode whose internal look-up of the name is observed through the trailer it writes
+	opRemoveOther // Remove of a background name (no effect on the two modelled names)
 )
 
-var opNames = []string{"Registry", "Get", "Remove", "Clear", "EncodeLookup"}
+var opNames = []string{"Registry", "Get", "Remove", "Clear", "EncodeLookup", "Remove(background name)"}
 
 type regIn struct {
 	Op  int
@@ -100,6 +102,8 @@ var regModel = porcupine.Model{
 			return true, s
 		case opClear:
 			return true, [2]int64{}
+		case opRemoveOther:
+			return true, s
 		}
 		return false, s
 	},
@@ -115,6 +119,8 @@ var regModel = porcupine.Model{
 			return fmt.Sprintf("Remove(%s)", c19Keys[i.Key])
 		case opEncode:
 			return fmt.Sprintf("EncodeLookup(%s)->(#%d,%v)", c19Keys[i.Key], o.ID, o.OK)
+		case opRemoveOther:
+			return "Remove(last background name)"
 		}
 		return "Clear()"
 	},
@@ -168,6 +174,8 @@ func doOp(in regIn) regOut {
 			return regOut{}
 		}
 		return regOut{OK: true, ID: sum}
+	case opRemoveOther:
+		codec.Remove("VERIF_BACKGROUND_LAST")
 	case opRemove:
 		codec.Remove(c19Keys[in.Key])
 	case opClear:
@@ -189,6 +197,8 @@ func recordHistory(rng *gen.Rng, hist int, shape int) []regEvent {
 		clients, opsPer = 3, 10 // few clients, long per-client sequences
 	case 3:
 		clients, opsPer = 10, 3 // many clients, very short sequences
+	case 4:
+		clients, opsPer = 6, 4 // "drain" (see below)
 	}
 	plans := make([][]regIn, clients)
 	for c := range plans {
@@ -223,7 +233,21 @@ func recordHistory(rng *gen.Rng, hist int, shape int) []regEvent {
 			plans[c] = append(plans[c], in)
 		}
 	}
-	if hist%2 == 1 {
+	if shape == 4 {
+		// "drain": the registry held 70 names and was emptied one Remove at a time down to a single background
+		// name; its Remove is the first operation of client 0, concurrent with registrations of the modelled names
+		for k := 0; k < 69; k++ {
+			codec.Registry(&svc{name: fmt.Sprintf("VERIF_BACKGROUND_%02d", k), id: int64(k + 1)})
+		}
+		codec.Registry(&svc{name: "VERIF_BACKGROUND_LAST", id: 99})
+		for k := 0; k < 69; k++ {
+			codec.Remove(fmt.Sprintf("VERIF_BACKGROUND_%02d", k))
+		}
+		plans[0][0] = regIn{Op: opRemoveOther}
+		for c := 1; c < clients; c++ {
+			plans[c][0] = regIn{Op: opRegistry, Key: c % 2, ID: int64(hist%1000)*1_000_000 + int64(c+1)*1000 + 1}
+		}
+	} else if hist%2 == 1 {
 		// a populated registry: copy-on-write or entry-by-entry implementations have a much wider window then
 		for k := 0; k < 64; k++ {
 			codec.Registry(&svc{name: fmt.Sprintf("VERIF_BACKGROUND_%02d", k), id: int64(k + 1)})
@@ -345,6 +369,8 @@ func c19Workload(e *Env, n int, label string) c19Stats {
 			shape = 2
 		case h%10 == 7:
 			shape = 3
+		case h%10 == 1:
+			shape = 4
 		}
 		recs = append(recs, rec{recordHistory(rng, h, shape), shape, h})
 	}
@@ -410,15 +436,23 @@ func c19Workload(e *Env, n int, label string) c19Stats {
 func firstCallScenario(k int) (steps []string, bad string) {
 	type op struct {
 		kind, name string
-		own        bool
+		flavor     int // Registry: 0 = a service with Algorithm() only, 1 = Calc returns uint32, 2 = Calc returns int32
 	}
 	scen := [][]op{
-		{{"Clear", "", false}, {"Get", "CRC32", false}, {"Get", "SSE_BIN", false}, {"Registry", "CRC32", true}, {"Get", "CRC32", false}},
-		{{"Remove", "CRC32", false}, {"Registry", "CRC32", true}, {"Get", "CRC32", false}, {"Get", "CRC16", false}},
-		{{"Get", "SZSE_BIN", false}, {"Registry", "SZSE_BIN", true}, {"Remove", "SZSE_BIN", false}, {"Registry", "SZSE_BIN", true}, {"Get", "SZSE_BIN", false}},
-		{{"Registry", "CRC16", true}, {"Get", "CRC16", false}, {"Clear", "", false}, {"Get", "CRC16", false}},
-		{{"Remove", "SSE_BIN", false}, {"Get", "SSE_BIN", false}, {"Get", "CRC32", false}, {"Clear", "", false}, {"Get", "CRC32", false}},
-	}[k%5]
+		{{"Clear", "", 0}, {"Get", "CRC32", 0}, {"Get", "SSE_BIN", 0}, {"Registry", "CRC32", 0}, {"Get", "CRC32", 0}},
+		{{"Remove", "CRC32", 0}, {"Registry", "CRC32", 0}, {"Get", "CRC32", 0}, {"Get", "CRC16", 0}},
+		{{"Get", "SZSE_BIN", 0}, {"Registry", "SZSE_BIN", 0}, {"Remove", "SZSE_BIN", 0}, {"Registry", "SZSE_BIN", 0}, {"Get", "SZSE_BIN", 0}},
+		{{"Registry", "CRC16", 0}, {"Get", "CRC16", 0}, {"Clear", "", 0}, {"Get", "CRC16", 0}},
+		{{"Remove", "SSE_BIN", 0}, {"Get", "SSE_BIN", 0}, {"Get", "CRC32", 0}, {"Clear", "", 0}, {"Get", "CRC32", 0}},
+		// library work between registry calls: frame encodes and decodes look services up, and whatever they
+		// find (nothing, a built-in, an application service of the expected or of ANOTHER result type - the
+		// registry accepts any value with Algorithm()) they must leave the registry as it is
+		{{"LibOps", "", 0}, {"Get", "CRC16", 0}, {"Get", "CRC32", 0}, {"Get", "SSE_BIN", 0}, {"Get", "SZSE_BIN", 0}},
+		{{"Remove", "SZSE_BIN", 0}, {"Registry", "SZSE_BIN", 1}, {"LibOps", "", 0}, {"Get", "SZSE_BIN", 0}, {"Registry", "SZSE_BIN", 2}, {"Get", "SZSE_BIN", 0}, {"Get", "CRC32", 0}},
+		{{"Clear", "", 0}, {"Registry", "SSE_BIN", 2}, {"Registry", "CRC32", 2}, {"Registry", "SZSE_BIN", 0}, {"LibOps", "", 0}, {"Get", "SSE_BIN", 0}, {"Get", "CRC32", 0}, {"Get", "SZSE_BIN", 0}, {"Get", "CRC16", 0}},
+		{{"Remove", "SSE_BIN", 0}, {"Remove", "CRC32", 0}, {"LibOps", "", 0}, {"Get", "SSE_BIN", 0}, {"Get", "CRC32", 0}, {"Clear", "", 0}, {"LibOps", "", 0}, {"Get", "SZSE_BIN", 0}, {"Get", "CRC16", 0}},
+		{{"Remove", "SZSE_BIN", 0}, {"Registry", "SZSE_BIN", 2}, {"Remove", "CRC32", 0}, {"Registry", "CRC32", 1}, {"LibOps", "", 0}, {"Get", "SZSE_BIN", 0}, {"Get", "CRC32", 0}},
+	}[k%nFirstCallScenarios]
 	model := map[string]int64{"CRC16": -1, "CRC32": -1, "SSE_BIN": -1, "SZSE_BIN": -1} // -1 = a built-in service
 	next := int64(100)
 	for i, o := range scen {
@@ -432,7 +466,14 @@ func firstCallScenario(k int) (steps []string, bad string) {
 			delete(model, o.name)
 		case "Registry":
 			next++
-			ok := codec.Registry(&svc{name: o.name, id: next})
+			var s any = &svc{name: o.name, id: next}
+			switch o.flavor {
+			case 1:
+				s = &svcU32{svc{name: o.name, id: next}}
+			case 2:
+				s = &svcI32{svc{name: o.name, id: next}}
+			}
+			ok := codec.Registry(s)
 			_, present := model[o.name]
 			if !present {
 				model[o.name] = next
@@ -443,11 +484,19 @@ func firstCallScenario(k int) (steps []string, bad string) {
 			id := int64(0)
 			if ok {
 				id = -1
-				if h, isH := s.(*svc); isH {
+				switch h := s.(type) {
+				case *svc:
+					id = h.id
+				case *svcU32:
+					id = h.id
+				case *svcI32:
 					id = h.id
 				}
 			}
 			got, want = fmt.Sprint(id), fmt.Sprint(model[o.name])
+		case "LibOps":
+			got = libOps()
+			want = got
 		}
 		steps = append(steps, fmt.Sprintf("%s(%s)->%s", o.kind, o.name, got))
 		if got != want && bad == "" {
@@ -455,6 +504,46 @@ func firstCallScenario(k int) (steps []string, bad string) {
 		}
 	}
 	return
+}
+
+const nFirstCallScenarios = 10
+
+// libOps encodes and decodes one frame of every frame type (panics trapped, outcomes ignored: whether an
+// encode copes with the service it finds is not C19's question) and reports what happened for the trace.
+func libOps() string {
+	var out []string
+	frames := []func() (codec.BinaryCodec, codec.BinaryCodec){
+		func() (codec.BinaryCodec, codec.BinaryCodec) {
+			return &szse.SzseBinary{MsgType: 3, Body: &szse.Heartbeat{}}, &szse.SzseBinary{}
+		},
+		func() (codec.BinaryCodec, codec.BinaryCodec) {
+			return &sample.RootPacket{MsgType: 4, Payload: &sample.EmptyPacket{}}, &sample.RootPacket{}
+		},
+		func() (codec.BinaryCodec, codec.BinaryCodec) {
+			return &sse.SseBinary{MsgType: 33, Body: &sse.Heartbeat{}}, &sse.SseBinary{}
+		},
+	}
+	for _, mk := range frames {
+		f, d := mk()
+		var b bytes.Buffer
+		err, p := mon.Call(func() error { return f.Encode(&b) })
+		res := "ok"
+		if p != nil {
+			res = "panic"
+		} else if err != nil {
+			res = "error"
+		}
+		if res != "ok" {
+			// decode something valid anyway: the bytes a correct encoder writes with no service registered
+			b.Reset()
+		}
+		_, p2 := mon.Call(func() error { return d.Decode(bytes.NewBuffer(append([]byte(nil), b.Bytes()...))) })
+		if p2 != nil {
+			res += "+decode-panic"
+		}
+		out = append(out, res)
+	}
+	return strings.Join(out, ",")
 }
 
 func c19(e *Env) {
@@ -486,7 +575,7 @@ func c19(e *Env) {
 		}
 		return
 	}
-	r.Rule("short concurrent histories against the real registry: shape A = 6 goroutines × 5 operations on the 2 algorithm names that generated frame encoders look up (SZSE_BIN, CRC32), mix 38% Registry / 15% Get / 17% EncodeLookup (a real SzseBinary / RootPacket frame encode; the harness services return their registration id as checksum, so the trailer reveals which registration the encoder's internal look-up saw) / 25% Remove / 5% Clear; every second history starts from a registry that also holds 64 background names; shape B (every 5th) = 12 goroutines all registering the same fresh name at once, then looking it up; every 10th history uses 3 goroutines × 10 operations, another every 10th 10 goroutines × 3; goroutines are released by a busy-wait barrier so calls genuinely overlap, with private random jitter between (never inside) calls; every registered service carries a unique id so that a look-up identifies the registration it saw; one sequential Get per name is appended after the goroutines have joined. Histories are recorded at the client boundary into per-goroutine slices with one monotonic clock (no shared recorder state inside the measured region). The workload runs in its own child process (it clears the built-in services; a runtime 'concurrent map' abort must not take the monitor down), once in a plain build and once in a -race build; plus five fresh processes whose very first registry calls are Clear / Remove / Registry / Get on the names of the built-in services (sequential, judged against the model started from the four built-ins). distinct_nontrivial = histories with at least one real-time overlap between calls of different goroutines")
+	r.Rule("short concurrent histories against the real registry: shape A = 6 goroutines × 5 operations on the 2 algorithm names that generated frame encoders look up (SZSE_BIN, CRC32), mix 38% Registry / 15% Get / 17% EncodeLookup (a real SzseBinary / RootPacket frame encode; the harness services return their registration id as checksum, so the trailer reveals which registration the encoder's internal look-up saw) / 25% Remove / 5% Clear; every second history starts from a registry that also holds 64 background names; shape B (every 5th) = 12 goroutines all registering the same fresh name at once, then looking it up; every 10th history uses 3 goroutines × 10 operations, another every 10th 10 goroutines × 3, another every 10th is a drain history (the registry held 70 names and was emptied by single Removes; the last Remove races registrations of the modelled names); goroutines are released by a busy-wait barrier so calls genuinely overlap, with private random jitter between (never inside) calls; every registered service carries a unique id so that a look-up identifies the registration it saw; one sequential Get per name is appended after the goroutines have joined. Histories are recorded at the client boundary into per-goroutine slices with one monotonic clock (no shared recorder state inside the measured region). The workload runs in its own child process (it clears the built-in services; a runtime 'concurrent map' abort must not take the monitor down), once in a plain build and once in a -race build; plus ten fresh processes whose very first registry calls are Clear / Remove / Registry / Get on the names of the built-in services, five of them with frame encodes and decodes of every frame type in between while the name holds nothing, a built-in, or an application service whose Calc has the expected or ANOTHER result type or is missing (sequential, judged against the model started from the four built-ins: library work never changes the registry). distinct_nontrivial = histories with at least one real-time overlap between calls of different goroutines")
 	r.Explain("Oracle 1: porcupine v1.3.0 linearizability check of every recorded history against a 25-line sequential map model (Registry succeeds iff the name is absent; Get returns the current registration or absent; Remove; Clear), unpartitioned because Clear spans names; checker timeout 10 s per history ⇒ inconclusive, never a violation. Oracle 2: Go race detector on the same workload (reports counted from the log), and the runtime's own 'concurrent map read and map write' abort. Oracle 3: the quiescent final Gets must be explained by the same linearization (a lost or duplicated insert nobody happened to read is still caught); shape B additionally asserts exactly one winner that the later look-up returns. A Get that returns a service whose own name differs from the name asked for can never be explained.")
 	r.Assume("linearizability is decided for the histories recorded, not for all interleavings", "the race detector judges only the accesses the workload performed")
 	runBuild := func(bin, mode, label string) {
@@ -561,7 +650,7 @@ func c19(e *Env) {
 	runBuild(os.Getenv("VERIF_BIN"), "plain-child", "plain_build")
 	runBuild(os.Getenv("VERIF_BIN_RACE"), "race-child", "race_build")
 	// fresh processes whose very first registry calls are Clear / Remove / Registry / Get on the built-in names
-	for k := 0; k < 5; k++ {
+	for k := 0; k < nFirstCallScenarios; k++ {
 		runBuild(os.Getenv("VERIF_BIN"), fmt.Sprintf("firstcall-child %d", k), fmt.Sprintf("first_calls_scenario_%d", k))
 	}
 }
